@@ -710,14 +710,17 @@ func (g *Generator) generateHandleErrorResponseMethod(gf *protogen.GeneratedFile
 	gf.P("// Try to parse as ValidationError first (for 400 errors)")
 	gf.P("if statusCode == http.StatusBadRequest {")
 	gf.P("validationErr := &sebufhttp.ValidationError{}")
-	gf.P("if unmarshalErr := c.unmarshalResponse(body, validationErr, contentType); unmarshalErr == nil {")
+	gf.P("// (the binary encoding accepts any message as any other: members the type does not know mean it is not one)")
+	gf.P("if unmarshalErr := c.unmarshalResponse(body, validationErr, contentType); unmarshalErr == nil &&")
+	gf.P("len(validationErr.ProtoReflect().GetUnknown()) == 0 {")
 	gf.P("return validationErr")
 	gf.P("}")
 	gf.P("}")
 	gf.P()
 	gf.P("// Try to parse as generic Error")
 	gf.P("genericErr := &sebufhttp.Error{}")
-	gf.P("if unmarshalErr := c.unmarshalResponse(body, genericErr, contentType); unmarshalErr == nil {")
+	gf.P("if unmarshalErr := c.unmarshalResponse(body, genericErr, contentType); unmarshalErr == nil &&")
+	gf.P("len(genericErr.ProtoReflect().GetUnknown()) == 0 {")
 	gf.P("return genericErr")
 	gf.P("}")
 	gf.P()
